@@ -6,6 +6,7 @@
 -/
 import Stevia.Generated.Avl32
 import Stevia.Proofs.GenLemmas
+import Stevia.Model.TreeImpTerm
 
 namespace Stevia
 open Imp
@@ -23,41 +24,60 @@ theorem is_empty_eq (d : Rec α β) (m : TreeImage α β) : is_empty d m = decid
 
 theorem is_full_eq (d : Rec α β) (m : TreeImage α β) : is_full d m = Imp.isFull m := rfl
 
+/-- `find`: the translated loop answers what the literal descent answers, provided it leaves by its own condition
+    within the fuel (`Imp.findT`); otherwise the translation fails. -/
 theorem find_eq (d : Rec α β) (m : TreeImage α β) (key : α) :
-    find d m key = Imp.find d m key (m.recs.length + 1) m.hdr.root := by
+    find d m key = if Imp.findT d m key (m.recs.length + 1) m.hdr.root
+      then some (Imp.find d m key (m.recs.length + 1) m.hdr.root) else none := by
   unfold find
-  simp only [forIn, Id.run]
+  simp only [forIn]
   generalize m.recs.length + 1 = fuel
   generalize m.hdr.root = node
   induction fuel generalizing node with
   | zero => rfl
   | succ n ih =>
-    simp only [Fuel.forIn, Imp.find, ← ih]
-    repeat' split
-    all_goals first | rfl | simp_all
+    simp only [Fuel.forIn, Imp.find, Imp.findT]
+    by_cases h0 : node = 0
+    · simp only [h0, ne_eq, not_true_eq_false, not_false_eq_true, if_true]; rfl
+    · by_cases h1 : key < (rd d m node).key
+      · simp only [h0, h1, ne_eq, not_false_eq_true, not_true_eq_false, if_true, if_false, pure_bind]
+        exact ih _
+      · by_cases h2 : (rd d m node).key < key
+        · simp only [h0, h1, h2, ne_eq, not_false_eq_true, not_true_eq_false, if_true, if_false, pure_bind]
+          exact ih _
+        · simp only [h0, h1, h2, ne_eq, not_false_eq_true, not_true_eq_false, if_true, if_false, pure_bind]
+          rfl
 
 theorem get_eq (d : Rec α β) (m : TreeImage α β) (key : α) :
-    get d m key = (Imp.find d m key (m.recs.length + 1) m.hdr.root).map fun i => (rd d m i).val := by
-  simp only [get, Id.run, pure, find_eq]
+    get d m key = if Imp.findT d m key (m.recs.length + 1) m.hdr.root
+      then some ((Imp.find d m key (m.recs.length + 1) m.hdr.root).map fun i => (rd d m i).val) else none := by
+  simp only [get, find_eq]
+  split <;> rfl
 
 theorem contains_eq (d : Rec α β) (m : TreeImage α β) (key : α) :
-    contains d m key = (Imp.find d m key (m.recs.length + 1) m.hdr.root).isSome := by
-  simp only [contains, Id.run, pure, find_eq]
+    contains d m key = if Imp.findT d m key (m.recs.length + 1) m.hdr.root
+      then some (Imp.find d m key (m.recs.length + 1) m.hdr.root).isSome else none := by
+  simp only [contains, find_eq]
+  split <;> rfl
 
 theorem lowest_eq (d : Rec α β) (m : TreeImage α β) :
-    lowest d m = Imp.lowest d m := by
+    lowest d m = if m.hdr.root = 0 ∨ Imp.leftT d m (m.recs.length + 1) m.hdr.root = true
+      then some (Imp.lowest d m) else none := by
   unfold lowest Imp.lowest
-  simp only [forIn, Id.run]
-  split
-  · rfl
-  · generalize m.recs.length + 1 = fuel
+  simp only [forIn]
+  by_cases hr : m.hdr.root = 0
+  · simp only [hr, true_or, if_true]; rfl
+  · simp only [hr, false_or, if_false]
+    generalize m.recs.length + 1 = fuel
     generalize m.hdr.root = node
     induction fuel generalizing node with
     | zero => rfl
     | succ n ih =>
-      simp only [Fuel.forIn, Imp.lowestGo, ← ih]
-      repeat' split
-      all_goals first | rfl | simp_all
+      simp only [Fuel.forIn, Imp.lowestGo, Imp.leftT]
+      by_cases h1 : (rd d m node).left = 0
+      · simp only [h1, ne_eq, not_true_eq_false, not_false_eq_true, if_true, if_false, pure_bind]; rfl
+      · simp only [h1, ne_eq, not_false_eq_true, not_true_eq_false, if_true, if_false, pure_bind]
+        exact ih _
 
 theorem from_bytes_mut_eq (d : Rec α β) (m : TreeImage α β) :
     from_bytes_mut d m = Imp.openMut cfgU32 m := by
@@ -65,11 +85,15 @@ theorem from_bytes_mut_eq (d : Rec α β) (m : TreeImage α β) :
 
 /-- `get_mut` yields the place of the value (its record index); writing through it is `Imp.update`. -/
 theorem get_mut_eq (d : Rec α β) (m : TreeImage α β) (key : α) (v : β) :
-    (match (get_mut d m key).2 with
+    (get_mut d m key).map (fun r => match r.2 with
       | none => (m, false)
-      | some i => (wr m i fun r => { r with val := v }, true)) = Imp.update d m key v := by
-  simp only [get_mut, Imp.update, Id.run, bind, pure, find_eq, Option.map_id_fun', id_eq]
-  cases Imp.find d m key (m.recs.length + 1) m.hdr.root <;> rfl
+      | some i => (wr m i fun r => { r with val := v }, true))
+    = if Imp.findT d m key (m.recs.length + 1) m.hdr.root then some (Imp.update d m key v) else none := by
+  simp only [get_mut, Imp.update, find_eq]
+  split
+  · simp only [Option.bind_eq_bind, Option.bind_some, pure, Option.map_some, Option.map_id_fun', id_eq]
+    cases Imp.find d m key (m.recs.length + 1) m.hdr.root <;> rfl
+  · rfl
 
 end Gen32
 end Stevia
